@@ -210,7 +210,9 @@ def run(rng, tier, model_ok):
         used = set()
         for i in range(k):
             v = rng.choice(sorted(V.names))
-            if V.variant_unit.get(v) in V.offset_units or v in used:
+            if used and rng.random() < 0.25:
+                v = rng.choice(sorted(used))           # the same unit again, most likely under another prefix
+            if V.variant_unit.get(v) in V.offset_units:
                 continue
             used.add(v)
             w = V.word(rng, v, prefix_prob=0.25)
@@ -238,7 +240,19 @@ def run(rng, tier, model_ok):
             if u in want and want[u][1] != e:
                 clash = True
             want[u] = (want.get(u, (0, e))[0] + p, e)
+        # whatever the spelling, an accepted expression has the dimensions and the scale its words have
+        dims, scale = {}, Fraction(1)
+        for w, p in parts:
+            for b, k in V.dims(sp[w]).items():
+                dims[b] = dims.get(b, 0) + k * p
+            scale *= V.scale(sp[w]) ** p
+        dims = {b: k for b, k in dims.items() if k != 0}
+        if got is not None and (V.dims(got) != dims or V.scale(got) != scale):
+            failures.append({"input": text, "why": "unit expression accepted as %s: dimensions %s and scale %s, its words give %s and %s"
+                             % (got, V.dims(got), V.scale(got), dims, scale)})
+            continue
         if clash:
+            stats["same_unit_two_prefixes"] = stats.get("same_unit_two_prefixes", 0) + 1
             continue
         want_names = sorted([[u, p, e] for u, (p, e) in want.items() if p != 0])
         if got is None or sorted(got) != want_names:
